@@ -76,23 +76,17 @@ Proof. exact c08_context_pinned_refuted. Qed.
 Theorem C08_context_pinned_agrees_when_fresh : forall h, overlay_pinned cx0 h = ctx_of h.
 Proof. exact overlay_pinned_fresh. Qed.
 
-(** A handler added with a nil publisher stays without publisher whatever publisher decorators are
-    registered (REPAIRED decorateHandlerPublisher): no decorator and no publisher ever sees its outputs
-    (they are nacked, C08_no_publisher_output_nacks), and when the handler stops there is nothing to Close. *)
-Theorem C08_nil_publisher_silent : forall h s d, h_pub h = PNil ->
-  forall e, In e (dispatch h s d) -> match e with EPubDec _ _ _ | EPublish _ _ _ => False | _ => True end.
-Proof. exact nil_publisher_silent. Qed.
+(** A handler added with a nil publisher (REPAIRED AddHandler: it gets the no-publisher stand-in): whatever
+    publisher decorators are registered, nothing is ever called on nil — when the handler stops there is no
+    Close on nil, and a chain that returns messages is nacked without any Publish call. *)
 Theorem C08_nil_publisher_never_closed : forall h s, publisher_close_panics false h s = false.
 Proof. exact nil_publisher_never_closed. Qed.
-(** PINNED (before the fix): with one publisher decorator registered h.publisher was the decorator around
-    nil: the decorator saw the batch (Publish on nil panicked: Nack) and handler.run's Close on it panicked
-    in the handler goroutine when the handler stopped — the process died. *)
-Theorem C08_nil_publisher_pinned_refuted :
-  let h := HC 12 1 7 22 PNil 33 3 in let s := ST [] [50%N] [] in
-  publisher_close_panics true h s = true
-  /\ dispatch_gen true h s (DL 1 22 cx0 (0%N, false) (Ret [1%N]) PubAccept)
-     = [EFn 3 (ctx_of h); EPubDec 50 33 [1%N]; ESettle false]
-  /\ dispatch h s (DL 1 22 cx0 (0%N, false) (Ret [1%N]) PubAccept) = [EFn 3 (ctx_of h); ESettle false].
+Theorem C08_nil_publisher_outputs_nacked : forall h s d x l, h_pub h = PNil -> chain_outcome h s d = Ret (x :: l) ->
+  publish_calls (dispatch h s d) = [] /\ settles (dispatch h s d) = [false].
+Proof. exact nil_publisher_trace. Qed.
+(** PINNED (before the fix): with a publisher decorator registered h.publisher was the decorator around nil and
+    handler.run's Close on it panicked in the handler goroutine when the handler stopped: the process died. *)
+Theorem C08_nil_publisher_pinned_refuted : exists h s, publisher_close_panics true h s = true.
 Proof. exact nil_publisher_pinned_refuted. Qed.
 
 (** The code-shaped model (loops) computes the declarative trace, and every delivery of every
@@ -113,8 +107,8 @@ Print Assumptions C08_context_values_pinned_refuted.
 Print Assumptions C08_context_pinned_agrees_when_fresh.
 Print Assumptions C08_dispatch_is_spec.
 Print Assumptions C08_model_accepted.
-Print Assumptions C08_nil_publisher_silent.
 Print Assumptions C08_nil_publisher_never_closed.
+Print Assumptions C08_nil_publisher_outputs_nacked.
 Print Assumptions C08_nil_publisher_pinned_refuted.
 Print Assumptions C08_model_accepted_all.
 Print Assumptions C08_wiring_is_declarative.
